@@ -4,6 +4,7 @@
    regenerated constants (Dxil/GenObligations.v), byte-exact correspondence runs and
    by running the extracted reader/parser on what dxil.Compile returns (checks/c18.py). *)
 From Coq Require Import List ZArith Bool Lia.
+From Coq Require Permutation.
 Import ListNotations.
 Require Import Naga.Dxil.Bitstream Naga.Dxil.Dxbc Naga.Dxil.MetaModel Naga.Dxil.MetaProofs Naga.Dxil.CheckModel Naga.Dxil.CheckProofs.
 Open Scope Z_scope.
@@ -240,6 +241,41 @@ Theorem c18_meta_check_complete : forall l r, meta_check l = Some (Some r) ->
 Proof. exact meta_check_complete. Qed.
 Print Assumptions c18_meta_check_complete.
 
+(* ---- interface parts: PSV0 against itself and against ISG1 / OSG1 / PSG1 ---- *)
+
+(* the permutation test of the checker: accepted = same elements in some order *)
+Theorem c18_perm_check_sound : forall a b, perm_check a b = true -> Permutation.Permutation a b.
+Proof. exact perm_check_sound. Qed.
+Print Assumptions c18_perm_check_sound.
+
+(* when the element rules accept and PSV0 stores signature elements: every element lies inside its
+   row(s), SigInputVectors / SigOutputVectors[stream] equal the highest row reached by an allocated element of
+   the signature (so no allocated element sits above the declared count, and the count is not larger than
+   needed), no two allocated elements claim one lane of one row, and the PSV0 elements are - up to order -
+   the ISG1 / OSG1 / PSG1 elements in stream, register row, component lanes, component type and semantic
+   index; when PSV0 stores no elements its vector counts are zero *)
+Theorem c18_sig_rules_sound : forall isg osg psg pv, sig_rules isg osg psg pv = None ->
+  (psv_declares_elements pv = true ->
+     sig_consistent (psv_sigs_of pv) (sig_part_elems isg) (sig_part_elems osg)
+                    (match psg with Some d => Some (sig_part_elems d) | None => None end)) /\
+  (psv_declares_elements pv = false ->
+     ps_vin (psv_sigs_of pv) = 0 /\ Forall (fun v => v = 0) (ps_vouts (psv_sigs_of pv))).
+Proof. exact sig_rules_sound. Qed.
+Print Assumptions c18_sig_rules_sound.
+
+(* the same, from the report of the checker that is run on real output *)
+Theorem c18_check_container_sig_sound : forall steps b r, check_container steps b = Some r -> snd (r_sig r) = None ->
+  exists d ps pi po pv,
+    parse b = Some (d, ps) /\ b = build d ps /\
+    find_part FourCC_ISG1 ps = Some pi /\ find_part FourCC_OSG1 ps = Some po /\ find_part FourCC_PSV0 ps = Some pv /\
+    let psg := match find_part FourCC_PSG1 ps with Some pp => Some (sig_part_elems (p_data pp)) | None => None end in
+    (psv_declares_elements (p_data pv) = true ->
+       sig_consistent (psv_sigs_of (p_data pv)) (sig_part_elems (p_data pi)) (sig_part_elems (p_data po)) psg) /\
+    (psv_declares_elements (p_data pv) = false ->
+       ps_vin (psv_sigs_of (p_data pv)) = 0 /\ Forall (fun v => v = 0) (ps_vouts (psv_sigs_of (p_data pv)))).
+Proof. exact check_container_sig_sound. Qed.
+Print Assumptions c18_check_container_sig_sound.
+
 (* ---- non-vacuity: concrete non-trivial instances of the hypotheses ---- *)
 
 Definition ex_tree : list item :=
@@ -275,3 +311,26 @@ Proof.
   - split; [vm_compute; reflexivity|]. split; [unfold program_ok, DxbcModel.two32; cbn; lia|].
     split; vm_compute; reflexivity.
 Qed.
+
+
+(* the interface parts dxil.Compile returns for
+     @fragment fn main(@location(0) a: vec3<f32>, @location(1) b: vec3<f32>, @location(2) c: f32) -> @location(0) vec4<f32>
+   (as a struct): location 2 is packed back into lane w of row 0 after location 1 took row 1.  The rules accept
+   it, PSV0 stores elements, two input vectors are declared; with SigInputVectors lowered to 1 (what a
+   "row of the last element" counter would write) the rules reject it. *)
+Definition ex_isg1 : list Z :=
+  [3; 0; 0; 0; 8; 0; 0; 0; 0; 0; 0; 0; 104; 0; 0; 0; 0; 0; 0; 0; 0; 0; 0; 0; 3; 0; 0; 0; 0; 0; 0; 0; 7; 7; 0; 0; 0; 0; 0; 0; 0; 0; 0; 0; 104; 0; 0; 0; 2; 0; 0; 0; 0; 0; 0; 0; 3; 0; 0; 0; 0; 0; 0; 0; 8; 8; 0; 0; 0; 0; 0; 0; 0; 0; 0; 0; 104; 0; 0; 0; 1; 0; 0; 0; 0; 0; 0; 0; 3; 0; 0; 0; 1; 0; 0; 0; 7; 7; 0; 0; 0; 0; 0; 0; 76; 79; 67; 0].
+Definition ex_osg1 : list Z :=
+  [1; 0; 0; 0; 8; 0; 0; 0; 0; 0; 0; 0; 40; 0; 0; 0; 0; 0; 0; 0; 64; 0; 0; 0; 3; 0; 0; 0; 0; 0; 0; 0; 15; 0; 0; 0; 0; 0; 0; 0; 83; 86; 95; 84; 97; 114; 103; 101; 116; 0; 0; 0].
+Definition ex_psv0 : list Z :=
+  [52; 0; 0; 0; 0; 0; 0; 0; 0; 0; 0; 0; 0; 0; 0; 0; 0; 0; 0; 0; 0; 0; 0; 0; 255; 255; 255; 255; 0; 0; 0; 0; 3; 1; 0; 2; 1; 0; 0; 0; 0; 0; 0; 0; 0; 0; 0; 0; 0; 0; 0; 0; 1; 0; 0; 0; 0; 0; 0; 0; 20; 0; 0; 0; 0; 109; 97; 105; 110; 0; 76; 79; 67; 0; 76; 79; 67; 0; 76; 79; 67; 0; 0; 0; 3; 0; 0; 0; 0; 0; 0; 0; 1; 0; 0; 0; 2; 0; 0; 0; 16; 0; 0; 0; 6; 0; 0; 0; 0; 0; 0; 0; 1; 0; 67; 0; 3; 2; 0; 0; 10; 0; 0; 0; 1; 0; 0; 0; 1; 1; 67; 0; 3; 2; 0; 0; 14; 0; 0; 0; 2; 0; 0; 0; 1; 0; 113; 0; 3; 2; 0; 0; 0; 0; 0; 0; 0; 0; 0; 0; 1; 0; 68; 16; 3; 0; 0; 0; 1; 0; 0; 0; 2; 0; 0; 0; 4; 0; 0; 0; 8; 0; 0; 0; 1; 0; 0; 0; 2; 0; 0; 0; 4; 0; 0; 0; 0; 0; 0; 0].
+
+Example c18_example_interface :
+  sig_rules ex_isg1 ex_osg1 None ex_psv0 = None /\ psv_declares_elements ex_psv0 = true /\
+  ps_vin (psv_sigs_of ex_psv0) = 2 /\
+  map (fun e => (pe_start_row e, pe_start_col e, pe_cols e)) (ps_ins (psv_sigs_of ex_psv0)) = [(0, 0, 3); (1, 0, 3); (0, 3, 1)] /\
+  map (fun e => (se_reg e, se_mask e)) (sig_part_elems ex_isg1) = [(0, 7); (0, 8); (1, 7)] /\
+  (let bad := firstn 35 ex_psv0 ++ [1] ++ skipn 36 ex_psv0 in
+   sig_rules ex_isg1 ex_osg1 None bad <> None /\
+   ps_vin (psv_sigs_of bad) = 1 /\ max_top (ps_ins (psv_sigs_of bad)) = 2).
+Proof. repeat split; try (vm_compute; reflexivity). vm_compute. discriminate. Qed.
